@@ -36,7 +36,6 @@ import (
 	"context"
 	"errors"
 	"fmt"
-	"strconv"
 
 	"github.com/cloudwego/dynamicgo/internal/json"
 	"github.com/cloudwego/dynamicgo/internal/native/types"
@@ -111,28 +110,43 @@ func (m apiJSConv) Write(ctx context.Context, p *thrift.BinaryProtocol, field *t
 	var val = rt.Mem2Str(in)
 	t := field.Type().Type()
 	if len(in) >= 2 && in[0] == '"' && in[len(in)-1] == '"' {
-		val, err = strconv.Unquote(val)
-		if err != nil {
-			return err
+		val = val[1 : len(val)-1]
+		if t == thrift.STRING {
+			// NOTICE: strconv.Unquote() can't be used here, JSON escapes are not those of Go
+			buf, ret := json.Unquote(make([]byte, 0, len(val)), val)
+			if ret < 0 {
+				return types.ParsingError(-ret)
+			}
+			return p.WriteString(rt.Mem2Str(buf))
 		}
-		if t != thrift.STRING && val == "" {
-			val = "0"
+		if val == "" {
+			return p.WriteDefaultOrEmpty(field)
 		}
+	}
+
+	// NOTICE: the value must be exactly one JSON number here, as for the native implementation
+	if val == "" || (val[0] != '-' && (val[0] < '0' || val[0] > '9')) {
+		return fmt.Errorf("invalid number %q", val)
+	}
+	ret, nv := json.DecodeValue(val, 0)
+	if ret < 0 {
+		return types.ParsingError(-ret)
+	}
+	if ret != len(val) {
+		return fmt.Errorf("invalid number %q", val)
 	}
 
 	switch t {
 	case thrift.I08, thrift.I16, thrift.I32, thrift.I64:
-		iv, err := strconv.ParseInt(val, 10, 64)
-		if err != nil {
-			return err
+		if nv.Vt == types.V_INTEGER {
+			return p.WriteInt(t, int(nv.Iv))
 		}
-		return p.WriteInt(t, int(iv))
+		return p.WriteInt(t, int(nv.Dv))
 	case thrift.DOUBLE:
-		dv, err := strconv.ParseFloat(val, 64)
-		if err != nil {
-			return err
+		if nv.Vt == types.V_INTEGER {
+			return p.WriteDouble(float64(nv.Iv))
 		}
-		return p.WriteDouble(dv)
+		return p.WriteDouble(nv.Dv)
 	case thrift.STRING:
 		return p.WriteString(val)
 	default:
